@@ -217,13 +217,16 @@ def currents(draw, dspec, current_units, kinds=("dict", "callable"), allow_zero=
     last = -sum(m)
     mult = {t["name"]: v for t, v in zip(terms, m + [last])}
     cs = dict(kind=draw(st.sampled_from(list(kinds))), quantum=quantum, mult=mult)
-    if generic and n >= 3 and draw(st.booleans()):
+    if generic and n >= 3 and (generic == "always" or draw(st.booleans())):
         # generic floats: partial sums depend on the order of summation in the last bit
         vals = [draw(st.floats(-1.0, 1.0)) * 9 * float(quantum) for _ in range(n - 1)]
         tot = 0.0
         for v in vals:
             tot += v
         cs["generic"] = {t["name"]: v for t, v in zip(terms, vals + [-tot])}
+        # handed over as Python floats or as NumPy scalars (e.g. taken from an array of sweep values): Python >= 3.12 sums
+        # plain floats with compensation, NumPy scalars in plain left-to-right order
+        cs["numpy"] = draw(st.booleans()) if generic != "always" else draw(st.integers(0, 3)) > 0
     if cs["kind"] == "callable":
         cs["profile"] = draw(st.sampled_from(["ramp", "step", "sine", "pulse", "const", "const"]))
         if n >= 3 and draw(st.booleans()):
@@ -249,6 +252,7 @@ def field(draw, dspec, field_units, kinds=("zero", "float", "constant", "gauge_p
     out = dict(kind=k, B=B)
     if k in ("ramp", "ramp_gauge"):
         out["tmax"] = draw(st.one_of(logu(-2, 0), logu(-1, 0), rf(1.0, 3.0)))  # 0.01 .. 3: about half of the ramps end within the run
+        out["tmax_frac"] = draw(rf(0.15, 1.5))  # used instead of tmax by builders that know the length of the run
         out["initial"] = draw(st.sampled_from([0.0, 0.0, 0.5, 1.0]))
         # also slow ramps: the potential changes by a tiny relative amount per step
         # ... and ramps that end at exactly zero field after a non-zero start (the field is switched off during the run)
